@@ -70,7 +70,22 @@ def cases(draw):
         if "daemon" not in a and draw(st.integers(0, 7)) == 0:
             a["daemon"] = True
             a["ops"].append(["sleep", 1000.0])
+    # resource utilisation of activities on different resources that start together and end at different dates (the retroactive events of
+    # the later ones are older than everything still buffered): 2-3 actors on distinct hosts start with execs of different sizes
+    staggered = draw(st.integers(0, 2)) == 0
+    if staggered:
+        k = draw(st.integers(2, 3))
+        while len(prog["actors"]) < k:
+            prog["actors"].append({"name": "x%d" % len(prog["actors"]), "host": "h0", "ops": []})
+        flops = draw(st.permutations([256.0, 1024.0, 2560.0]))
+        for i in range(k):
+            a = prog["actors"][i]
+            a["host"] = HOSTS[i]
+            a["ops"].insert(0, ["exec", flops[i], {}])
+            a["ops"].append(["sleep", draw(st.sampled_from([0.5, 4.0]))])       # stays alive: its container is not destroyed at once
     opts = {}
+    if staggered:
+        opts[draw(st.sampled_from(["tracing/uncategorized", "tracing/uncategorized", "tracing/categorized"]))] = "yes"
     for o in BOOL_OPTS:
         p = 4 if o in ("tracing/actor", "tracing/uncategorized") else 1
         if draw(st.integers(0, 4)) < p:
@@ -93,7 +108,7 @@ def cases(draw):
 
 def scenario(case, trace_path, tracing=True):
     sc = dict(case["prog"])
-    sc["quiet"] = ["adv", "act"]
+    sc["quiet"] = ["adv"]
     if tracing:
         sc["args"] = ["--cfg=tracing:yes", "--cfg=tracing/filename:" + trace_path] + ["--cfg=%s:%s" % kv for kv in sorted(case["opts"].items())]
         if case.get("categories"):
